@@ -157,6 +157,10 @@ def _c07(tier, seed):
         {"engine": "bounds", "args": [], "cases": 1, "shards": N, "flavour": "asan", "env": ASAN_ENV, "timeout": 3000},
         {"engine": "mix", "args": [], "cases": 4000 if tier == "quick" else 60000, "shards": N, "flavour": "asan",
          "env": ASAN_ENV, "timeout": 3000},
+        {"engine": "sgl", "args": [], "cases": 600 if tier == "quick" else 20000, "shards": N, "flavour": "asan",
+         "env": ASAN_ENV, "timeout": 3000},
+        {"engine": "entry", "args": [], "cases": 1500 if tier == "quick" else 50000, "shards": N, "flavour": "asan",
+         "env": ASAN_ENV, "timeout": 3000},
     ]
 
 
